@@ -618,3 +618,44 @@ class Susp2(Base):
             yield from bps.close_run()
 
         return plan()
+
+
+KEYSW_KEYS = ["k1", "k2", 0, "", (), False, 1, 0.0]
+
+
+@register
+class KeysW(Base):
+    """Run keys assigned by NESTED set_run_key_wrapper calls (outer key params['ko'], inner key params['ki'], indices
+    into KEYSW_KEYS, several of them falsy): the inner run opens and closes while the outer one is open."""
+
+    id = "keysw"
+
+    def devices(self, ctx):
+        return {
+            "d1": FakeDet(ctx, "d1", is_async=self.a, offset=100.0, stageable=False),
+            "d2": FakeDet(ctx, "d2", is_async=self.a, offset=200.0, stageable=False),
+        }
+
+    def plan(self, d):
+        import bluesky.plan_stubs as bps
+        import bluesky.preprocessors as bpp
+
+        ko = KEYSW_KEYS[self.params.get("ko", 0)]
+        ki = KEYSW_KEYS[self.params.get("ki", 1)]
+
+        def inner():
+            yield from bps.open_run(md={"key": "inner"})
+            yield from bps.checkpoint()
+            yield from bps.trigger_and_read([d["d2"]])
+            yield from bps.close_run()
+
+        def outer():
+            yield from bps.open_run(md={"key": "outer"})
+            yield from bps.checkpoint()
+            yield from bps.trigger_and_read([d["d1"]])
+            yield from bpp.set_run_key_wrapper(inner(), ki)
+            yield from bps.checkpoint()
+            yield from bps.trigger_and_read([d["d1"]])
+            yield from bps.close_run()
+
+        return bpp.set_run_key_wrapper(outer(), ko)
